@@ -376,7 +376,7 @@ def run_sock_check(prop, tier, seed):
         failures.sort()
         _, c, o, msg = failures[0]
         rep.violation_input("%s (%d failing cases; smallest shown)" % (msg[:300], len(failures)),
-                            {"bin": "queue" if c.startswith("Q ") else "sock", "case": c[:2000], "implementation": o[:2000], "clause": msg})
+                            {"bin": "queue" if c.startswith("Q ") else "sock", "case": c, "implementation": o, "clause": msg})
     dis = [(len(c), c, i, m) for c, i, m in zip(cases, impl, model) if i != m]
     if dis and not failures:
         dis.sort()
@@ -385,8 +385,8 @@ def run_sock_check(prop, tier, seed):
             "correspondence Model/{Stats,Sock,Writer}.v <-> sinks/{udp,unix,core}.rs broken on %d cases; the theorems of "
             "Props/%s.v no longer speak about this code" % (len(dis), prop),
             {"correspondence": "Stats.sock_emit / Sock.buffered_stats + Writer.sink_init vs the real sinks on local sockets",
-             "theorems": rep.cov.get("theorems", []), "first_disagreeing_case": c[:2000],
-             "implementation": i[:2000], "model": m[:2000]})
+             "theorems": rep.cov.get("theorems", []), "first_disagreeing_case": c,
+             "implementation": i, "model": m, "first_difference": common.first_difference(i, m)})
     nt = set()
     dist = {"families": {}, "queued": 0, "listener_toggles": 0, "refused": 0, "datagrams": 0}
     for c, o in zip(cases, impl):
